@@ -43,6 +43,14 @@ NEEDS = {
  "C08-b": "an if guarded by a chained logic condition (a && b): LogicCondition forwarded to the parent block with result and right registers transposed",
  "C12-b": "a parameter named like a generated name (x.0) and a let x in the same function (init_func_params no longer registers the inner name)",
  "C19-b": "two extension leaves evaluated back to back that push equal custom instructions (the stack drops an extension instruction equal to its top entry)",
+ "C04-c": "a block nested two or more levels deep that allocates registers, followed by register-allocating code two or more levels up (set_register reaches only the direct parent, register numbers are re-issued with other types)",
+ "C05-c": "an earlier return inside an if or loop of the function, followed by a sibling if/else whose then-branch does not return (the jump to if_end is skipped when the inherited manual_return flag is set)",
+ "C09-c": "a plain if/else whose else body writes a register after the condition or the if body wrote one (the else block state is created early and keeps a stale counter)",
+ "C10-c": "an if/else with both bodies ending in return and a nested if in one of them (if_end no longer emitted, but the nested if inherits and targets it)",
+ "C13-c": "the same fresh local name declared three times in scopes that cannot see each other (name probe retries from the first candidate: analysis does not terminate)",
+ "C16-c": "a struct with a struct-typed attribute declared textually before that attribute's type (types() now rejects forward references)",
+ "C17-c": "an earlier function calling g with an argument that fails to analyse, and a later function calling g (the callee is removed from the table around the argument loop and not restored on the early return)",
+ "C18-c": "an assignment to a mutable variable of an enclosing block from inside a loop or if body (binding copies the looked-up value into the current block's table)",
  "C20-b": "a program with code after break / continue / return, whose error list is then serialised (serde(skip) on the three ForbiddenCodeAfter… kinds)",
 }
 def sh(cmd, **kw):
